@@ -6,7 +6,7 @@
 (* so that every offending code object of the batch is listed).                     *)
 EXTENDS Bytecode, TLC, Json, IOUtils
 Codes == ndJsonDeserialize(IOEnv.VERIF_CODES)
-HMAX == 64
+HMAX == 1024   \* vm.MaxStackDepth: the operand stack of the real VM
 VARIABLES p, ip, h, bnd    \* bnd: the instruction boundaries of code p (constant per behaviour)
 vars == <<p, ip, h, bnd>>
 Ins == Codes[p].ins
@@ -26,7 +26,10 @@ Close(ins, frontier, seen) ==
   ELSE LET ok(s) == s[1] < Len(ins) /\ s[2] >= 0 /\ s[2] <= HMAX /\ s[1] \in bnd /\ ins[s[1]+1] \in Known
            nxt == UNION {IF ok(s) THEN Succ(ins, s[1], s[2]) ELSE {} : s \in frontier}
            new == nxt \ seen
-       IN Close(ins, new, seen \cup new)
+           all == seen \cup new
+       IN \* stop at the first instruction reached with two heights (a leaking loop would climb to HMAX otherwise)
+          IF \E x \in new: \E y \in all: x[1] = y[1] /\ x[2] # y[2] THEN all
+          ELSE Close(ins, new, all)
 Reach(ins) == Close(ins, {<<0, 0>>}, {<<0, 0>>})
 Unique(ins) == LET R == Reach(ins) IN \A x \in R, y \in R: x[1] = y[1] => x[2] = y[2]
 
